@@ -27,6 +27,12 @@ inductive Err where
 
 abbrev Res (α : Type) := Except Err α
 
+instance {ε α : Type} [DecidableEq ε] [DecidableEq α] : DecidableEq (Except ε α)
+  | .ok a, .ok b => if h : a = b then isTrue (by rw [h]) else isFalse (by intro c; cases c; exact h rfl)
+  | .error a, .error b => if h : a = b then isTrue (by rw [h]) else isFalse (by intro c; cases c; exact h rfl)
+  | .ok _, .error _ => isFalse (by intro c; cases c)
+  | .error _, .ok _ => isFalse (by intro c; cases c)
+
 def Err.isPanic : Err → Bool
   | .panic _ => true
   | .outOfFuel => true
